@@ -137,6 +137,23 @@ def events(darsia, rng, stacks, degrees, quick):
             e["raised"] = 1
             e["error"] = repr(ex)[:160]
         ev.append(e)
+        # the same label-wise model applied to signals of other resolutions, one after the other (coarser, native, finer,
+        # native): each result is the per-label affine map on the label map brought to the signal's resolution (nearest
+        # neighbour: source index = floor(target index * source extent / target extent))
+        if i % 2 == 0 and e["raised"] == 0:
+            for step, fac in enumerate(rng.choice([[(1, 2), (1, 1), (2, 1), (1, 1)], [(2, 1), (1, 2), (1, 1)], [(1, 2), (2, 1)]])):
+                shp = (shape[0] * fac[0] * 2 // (fac[1] * 2) if fac[1] == 1 else max(1, shape[0] // fac[1]),
+                       shape[1] * fac[0] if fac[1] == 1 else max(1, shape[1] // fac[1]))
+                lab_r = np.array([[labels[(r * shape[0]) // shp[0], (c * shape[1]) // shp[1]] for c in range(shp[1])] for r in range(shp[0])])
+                xs = np.array([rng.randint(-4, 9) for _ in range(shp[0] * shp[1])], dtype=float).reshape(shp)
+                e2 = {"tid": f"hetlinear:{i}:seq{step}", "op": "hetlinear", "labels": lab_r.ravel().tolist(), "uniq": uniq, "a": e["a"], "b": e["b"], "x": ints(xs),
+                      "raised": 0, "res": [], "shape": list(shp)}
+                try:
+                    e2["res"] = ints(hm(xs))
+                except Exception as ex:  # noqa
+                    e2["raised"] = 1
+                    e2["error"] = repr(ex)[:160]
+                ev.append(e2)
         mask = np.array([rng.randint(0, 1) for _ in range(labels.size)]).reshape(shape).astype(bool)
         lo, hi = rng.randint(-1, 3), rng.choice([NONE, rng.randint(4, 8)])
         tm = darsia.StaticThresholdModel(float(lo), None if hi == NONE else float(hi))
